@@ -25,6 +25,13 @@ fn one(ctx: &mut Ctx, data: &[u8], tag: &str) {
         let a1 = mz_adler32_oxide(mz_adler32_oxide(MZ_ADLER32_INIT, &data[..k]), &data[k..]);
         let c1 = mz_crc32_oxide(mz_crc32_oxide(0, &data[..k]), &data[k..]);
         ctx.count("splits");
+        // the same split through the exported C functions (non-null pointer even for an empty piece:
+        // an empty update must return the running value, not the initial one)
+        let ca1 = unsafe { let p = mz_adler32(1, data.as_ptr(), k); mz_adler32(p, data.as_ptr().add(k), n - k) } as u32;
+        let cc1 = unsafe { let p = mz_crc32(0, data.as_ptr(), k); mz_crc32(p, data.as_ptr().add(k), n - k) } as u32;
+        ctx.count("c_splits");
+        if ca1 != a { ctx.violation(id, "c_split", format!("mz_adler32 split at {} of {}: {} != one pass {}", k, n, ca1, a), format!("CKS in={}", hex(data))); }
+        if cc1 != c { ctx.violation(id, "c_split", format!("mz_crc32 split at {} of {}: {} != one pass {}", k, n, cc1, c), format!("CKS in={}", hex(data))); }
         if a1 != a { ctx.violation(id, "split", format!("adler32 split at {} of {}: {} != one pass {}", k, n, a1, a), format!("CKS in={}", hex(data))); }
         if c1 != c { ctx.violation(id, "split", format!("crc32 split at {} of {}: {} != one pass {}", k, n, c1, c), format!("CKS in={}", hex(data))); }
         // continuation from a prefix checksum is also judged by the definition (on short data)
